@@ -120,7 +120,7 @@ def C11_structure_statement : Prop :=
     (∀ b ∈ N.branches, match b.e with
       | .norton Z V => 0 ≤ Z ∧ (Z ≠ 0 → V = 0)
       | .thevenin Y _ => Y = 0) →
-    ssColsL N lvals = specColsL N lvals →
+    (∀ id ∈ lvals.keys, id ∈ N.vsIds) →
     let ny := N.nY; let ns := ssNStates N cvals lvals
     let Jn : Matrix (Fin ny) (Fin ny) ℚ := diagonal fun i => if (i : Nat) < N.nN then 1 else -1
     let J : Matrix (Fin ns) (Fin ns) ℚ := diagonal fun k => if (k : Nat) < cvals.length then -1 else 1
